@@ -331,8 +331,10 @@ Fixpoint quick_set (sw : ptd) (dest : ptd) {struct sw} : qres :=
 
 (* ------------------------------------------------------------------ the with-statement protocol *)
 
+(* b_live: the tensordict to_module was called on (the SOURCE) is still referenced by someone when the block is left.
+   The recorded operation only holds a weak reference to it: `with params.data.to_module(m):` leaves with a dead one. *)
 Record block := mkBlock {
-  b_target : Z; b_inplace : option bool; b_usd : bool; b_swap_dest : bool; b_manual : bool; b_params : ptd }.
+  b_target : Z; b_inplace : option bool; b_usd : bool; b_swap_dest : bool; b_manual : bool; b_live : bool; b_params : ptd }.
 
 Inductive exckind := XNone | XExc | XBase.
 Record excspec := mkExc { x_kind : exckind; x_level : nat; x_fires : bool }.
@@ -351,17 +353,22 @@ Definition body_raise (x : excspec) (lvl : nat) : outcome :=
 
 Definition cfg_of (b : block) (return_swap : bool) : tmcfg := mkCfg (b_inplace b) return_swap (b_usd b).
 
-(* _reverse_to_module: self = swap, out = params.  AttributeError is re-raised as RuntimeError. *)
+(* _reverse_to_module: self = swap (the object the with-statement holds), out = the source tensordict or None when
+   the weak reference is dead.  What is re-installed comes from the swap alone; out is only where the values leaving the
+   module are written (swap_dest=out, _quick_set), and with out = None a new tensordict is returned instead.
+   AttributeError is re-raised as RuntimeError. *)
 Definition reverse_to_module (b : block) (swap : ptd) (st : tstate) : tstate * outcome :=
   if b_swap_dest b && negb fixed_D133 then (st, ORaise ETypeError)               (* to_module with kwargs and swap_dest=out: repeated keyword *)
   else
     match to_module (cfg_of b true) swap (b_target b) st with
     | TmErr st' e => (st', ORaise (match e with EAttrError => EOther | _ => e end))
     | TmOk st' _ sw' =>
-        match quick_set sw' (b_params b) with
-        | QErr e => (st', ORaise e)
-        | QOk _ => (st', OOk)
-        end
+        if b_live b then
+          match quick_set sw' (b_params b) with
+          | QErr e => (st', ORaise e)
+          | QOk _ => (st', OOk)
+          end
+        else (st', OOk)
     end.
 
 (* __exit__(exc) after the body finished with outcome [oc] *)
